@@ -62,6 +62,15 @@ func (w *World) execSide(r *Replica, ri int, s *Side, point string) {
 		w.logf("S %s %s check %s -> %d", r.Name, point, kind, res.Code)
 	case "query":
 		w.execQuery(r, s, point)
+	case "info":
+		// the Info request of the query connection (abci_info) may arrive at any time
+		res, err := r.Info()
+		w.Probes.Hit("side.info")
+		if err != nil {
+			w.sidePanic(r, "Info", err)
+			return
+		}
+		w.logf("S %s %s info -> %d %x", r.Name, point, res.LastBlockHeight, res.LastBlockAppHash)
 	}
 }
 
